@@ -68,7 +68,7 @@ void run_ps(const char *op)
     size_t nops = aLlen(9) / 4;
     for (size_t i = 0; i < nops; i++) {
         uint64_t code = aLu(9, 4 * i), a = aLu(9, 4 * i + 1), b = aLu(9, 4 * i + 2), c = aLu(9, 4 * i + 3);
-        uint64_t before = g_nacc;
+        uint64_t before = g_nacc; g_inreg = true;   /* per operation: the accesses of this operation against the current placement */
         PersistentAccess acc; unsigned char *buf = NULL; size_t blen = 0; bool show = false;
         switch (code) {
         case 0: buf = malloc(dsize ? dsize : 1); for (size_t j = 0; j < dsize; j++) buf[j] = gen_octet(a, j);
@@ -80,6 +80,8 @@ void run_ps(const char *op)
         case 4: { size_t k = b < dsize + 8 ? (size_t)b : dsize + 8; buf = calloc(k ? k : 1, 1); blen = k;
                 acc = persistent_fetch_part(buf, &st, (size_t)a, (size_t)b); show = true; break; }
         case 5: acc = persistent_reset(&st, (unsigned char)a); break;
+        case 8: persistent_place(&st, (uint32_t)a); g_lo = a; g_hi = a + (ckind == 2 ? 4 : 2) + dsize; out_s("place"); continue;
+        case 9: free(aux); aux = a ? malloc((size_t)a) : NULL; persistent_buffer(&st, aux, (size_t)a); out_s("buffer"); continue;
         case 7: buf = malloc(dsize ? dsize : 1); for (size_t j = 0; j < dsize; j++) buf[j] = j < 8 ? (unsigned char)(a >> (8 * j)) : 0;   /* explicit image: the octets of a, least significant first */
                 acc = persistent_store(&st, buf); break;
         default: if (a < g_len) g_img[a] ^= (unsigned char)b;
